@@ -48,47 +48,26 @@ def buildMatrix (cols : List (List Nat)) : Built Nat dna.K :=
 /-- `matrix`: four `matrix_column`s, then `build_matrix`; a ragged matrix is `Err::Error(MapRes)`
     (repaired: was `unimplemented!()`).  The value is `Except site matrix` so that an index panic
     inside `build_matrix` stays visible. -/
-def matrix : Parser (Except String (Mat Nat dna.K)) := fun i =>
-  match matrixColumn i with
-  | .ok i1 a =>
-    match matrixColumn i1 with
-    | .ok i2 c =>
-      match matrixColumn i2 with
-      | .ok i3 g =>
-        match matrixColumn i3 with
-        | .ok i4 t =>
-          match buildMatrix [a, c, g, t] with
-          | .ok m => .ok i4 (.ok m)
-          | .invalid => .err
-          | .panic site => .ok i4 (.error site)
-        | .err => .err | .fail => .fail | .incomplete => .incomplete
-      | .err => .err | .fail => .fail | .incomplete => .incomplete
-    | .err => .err | .fail => .fail | .incomplete => .incomplete
-  | .err => .err | .fail => .fail | .incomplete => .incomplete
+def matrix : Parser (Except String (Mat Nat dna.K)) :=
+  built (pair matrixColumn (pair matrixColumn (pair matrixColumn matrixColumn)))
+    fun v => buildMatrix [v.1, v.2.1, v.2.2.1, v.2.2.2]
+
+/-- the description: the rest of the header line, trimmed, if anything is left -/
+def descOf (acc : Bytes) : Option Bytes := if (trim acc).isEmpty then none else some (trim acc)
 
 /-- `header`: `>` id (up to ASCII whitespace), rest of the line trimmed as description -/
-def header : Parser (Bytes × Option Bytes) := fun i =>
-  match preceded (tag [0x3E]) (takeWhile (fun b => !isAsciiWs b)) i with
-  | .ok i1 id =>
-    match takeUntilByte 0x0A i1 with
-    | .ok i2 acc =>
-      match lineEnding i2 with
-      | .ok i3 _ =>
-        let d := trim acc
-        .ok i3 (id, if d.isEmpty then none else some d)
-      | .err => .err | .fail => .fail | .incomplete => .incomplete
-    | .err => .err | .fail => .fail | .incomplete => .incomplete
-  | .err => .err | .fail => .fail | .incomplete => .incomplete
+def header : Parser (Bytes × Option Bytes) :=
+  pmap
+    (pair (preceded (tag [0x3E]) (takeWhile (fun b => !isAsciiWs b)))
+      (pair (takeUntilByte 0x0A) lineEnding))
+    fun v => (v.1, descOf v.2.1)
 
 /-- `record`: header, then `map_res(matrix, CountMatrix::new)` (`CountMatrix::new` never fails) -/
-def record : Parser (Except String (CRecord dna.K)) := fun i =>
-  match header i with
-  | .ok i1 (id, d) =>
-    match matrix i1 with
-    | .ok i2 (.ok m) => .ok i2 (.ok { id := id, description := d, matrix := m })
-    | .ok i2 (.error site) => .ok i2 (.error site)
-    | .err => .err | .fail => .fail | .incomplete => .incomplete
-  | .err => .err | .fail => .fail | .incomplete => .incomplete
+def record : Parser (Except String (CRecord dna.K)) :=
+  pmap (pair header matrix) fun v =>
+    match v.2 with
+    | .ok m => .ok { id := v.1.1, description := v.1.2, matrix := m }
+    | .error site => .error site
 
 /-! ### mod.rs: the reader (shared with jaspar16) -/
 
